@@ -74,6 +74,15 @@ func init() {
 		rule: "one case = one simulated run: a prologue that places the filter before, at or beyond the list-to-map switch (with removed slots), then a seeded history of Add/Remove/Contains/invalid-argument calls over a colliding universe of prefixes (C11: one client, model equality after every operation, 4- and 16-byte probes; C12: 1..3 writers owning disjoint ranges, 1..3 readers, pre-emption inside critical sections); non-trivial = at least one context switch where the running task could have continued, forced pre-emption or fired fault (C11 runs are sequential: non-trivial there means distinct operation history); distinct = distinct hash of the full event history",
 		assume: []string{"simulated RWMutex/atomic semantics conform to package sync's documentation (simrt conformance suite)", "sampling, not proof: <=40 operations after the prologue, <=3 writers, <=3 readers"},
 	}
+	worlds["logworld"] = &worldSpec{
+		name: "logworld", pkgs: []string{"logger", "httpd", "util/netutil"}, quick: 6000, thorough: 80000,
+		real: []string{"logger/*.go (Nano/Text/JSON handlers, Logger, buffer pool; sync and time imports shimmed, accesses instrumented)", "log/slog", "encoding/json", "strconv", "fmt", "runtime.Callers"},
+		stub: []string{"goroutine scheduling", "sync.Mutex behind outMu", "both sync.Pools (fresh / most recent / stale object chosen by the simulator)", "clock (constant: no timers in this world)", "caller tasks (harness)", "destination io.Writer (slow, short, failing)"},
+		rule: "one case = one simulated run: handler kind, threshold, colour and source flags, a derivation tree of up to 12 loggers built before and during the run, 1..4 client tasks logging and deriving through shared nodes with generated attribute lists (all slog kinds, nested/inline groups, LogValuer, AnsiString, lines over 16 KiB), a probe record through every node at the end; every line is compared with an isolated replay of its logger's own chain; non-trivial = at least one context switch where the running task could have continued, forced pre-emption or fired fault; distinct = distinct hash of the full event history",
+		assume: []string{"the reference is the same code in isolation (fresh root, fresh pool buffers, sequential): a defect that changes isolated and concurrent output identically is invisible here (that is C01/C13 territory, not applicable to this technique)", "sampling, not proof: <=12 loggers, <=4 clients x <=7 operations"},
+	}
+	propWorld["C02"] = "logworld"
+	propWorld["C03"] = "logworld"
 	propWorld["C11"] = "filterworld"
 	propWorld["C12"] = "filterworld"
 }
